@@ -38,6 +38,7 @@ type c18World struct {
 	fork      map[int]base.SuffrageProof // fork[k] links from main[k-1] but is not main[k] (k>=1)
 	high      []base.SuffrageProof       // a foreign history that starts at genesis and whose suffrage changes rarely: suffrage height i>=1 at block c18HighBlock(i), above every block of main
 	forkhigh  map[int]base.SuffrageProof // forkhigh[k] links from main[k-1] (suffrage height k) but lives at a block above every block of main (k>=1)
+	orphan    map[int]base.SuffrageProof // orphan[k]: a valid proof of suffrage height k>=1 at block c18Block(k) whose state has no previous state hash
 	cand      base.State                 // a candidates state
 }
 
@@ -175,7 +176,7 @@ var (
 
 func c18GetWorld(t testing.TB) *c18World {
 	c18WorldOnce.Do(func() {
-		w := &c18World{networkID: base.NetworkID("c18-network"), fork: map[int]base.SuffrageProof{}, forkhigh: map[int]base.SuffrageProof{}}
+		w := &c18World{networkID: base.NetworkID("c18-network"), fork: map[int]base.SuffrageProof{}, forkhigh: map[int]base.SuffrageProof{}, orphan: map[int]base.SuffrageProof{}}
 		w.main = c18Chain("ma", w.networkID, c18ChainLen, c18Block)
 		w.foreign = c18Chain("fo", w.networkID, c18ChainLen, c18Block)
 		w.late = c18Chain("la", w.networkID, c18ChainLen, func(i int) base.Height { return c18Block(i) + 3 })
@@ -185,6 +186,11 @@ func c18GetWorld(t testing.TB) *c18World {
 		for k := 1; k < c18ChainLen; k++ {
 			w.fork[k] = c18Proof("fk", w.networkID, signer, k, c18Block(k), w.main[k-1].State(),
 				[]base.LocalNode{signer, c18Node("fk", 1+k%3)})
+		}
+
+		osigner := c18Node("or", 0)
+		for k := 1; k < c18ChainLen; k++ {
+			w.orphan[k] = c18Proof("or", w.networkID, osigner, k, c18Block(k), nil, []base.LocalNode{osigner, c18Node("or", 1+k%3)})
 		}
 
 		hsigner := c18Node("fh", 0)
@@ -226,6 +232,10 @@ func c18GetWorld(t testing.TB) *c18World {
 			t.Fatalf("harness: forkhigh[%d] invalid: %+v", k, err)
 		}
 
+		if err := w.orphan[k].IsValid(w.networkID); err != nil {
+			t.Fatalf("harness: orphan[%d] invalid: %+v", k, err)
+		}
+
 		// generator soundness: the "high" proofs sit above every block a local state can be at
 		if w.high[k].State().Height() <= w.main[c18ChainLen-1].State().Height() ||
 			w.forkhigh[k].State().Height() <= w.main[c18ChainLen-1].State().Height() {
@@ -239,7 +249,7 @@ func c18GetWorld(t testing.TB) *c18World {
 // ---- case
 
 type c18Ans struct {
-	Kind string `json:"kind"` // main | foreign | late | fork | high | forkhigh | notfound | err | notupdated
+	Kind string `json:"kind"` // main | foreign | late | fork | high | forkhigh | orphan | notfound | err | notupdated
 	H    int    `json:"h"`    // suffrage height of the delivered proof
 }
 
@@ -309,6 +319,8 @@ func (w *c18World) proofOf(a c18Ans) base.SuffrageProof {
 		return w.high[a.H]
 	case "forkhigh":
 		return w.forkhigh[a.H]
+	case "orphan":
+		return w.orphan[a.H]
 	}
 
 	return nil
@@ -349,6 +361,16 @@ func c18GenAns(t *rapid.T, c *c18Case, requested int, label string) c18Ans {
 		return c18Ans{Kind: "notfound"}
 	case k == 10:
 		return c18Ans{Kind: "err"}
+	case k == 11:
+		// a valid proof of suffrage height >= 1 whose state names no previous state at all
+		switch {
+		case requested >= 1 && requested < c18ChainLen:
+			return c18Ans{Kind: "orphan", H: requested}
+		case h >= 1:
+			return c18Ans{Kind: "orphan", H: h}
+		}
+
+		return c18Ans{Kind: "late", H: 0}
 	case k == 12:
 		return c18Ans{Kind: "high", H: h} // foreign chain, block height above every local state
 	case k == 13:
